@@ -6,17 +6,16 @@ pub assume_specification<T: PartialOrd> [<[T] as PartialOrd<[T]>>::lt] (a: &[T],
     ensures r == slice_lt(a@, b@);
 pub assume_specification<T: PartialOrd> [<[T] as PartialOrd<[T]>>::le] (a: &[T], b: &[T]) -> (r: bool)
     ensures r == (slice_lt(a@, b@) || a@ == b@);
-pub open spec fn key_lt(a: Seq<u8>, b: Seq<u8>) -> bool { slice_lt(a, b) }
 #[verifier::external_body]
 pub proof fn axiom_key_order()
     ensures
-        forall|a: Seq<u8>| !#[trigger] key_lt(a, a),
-        forall|a: Seq<u8>, b: Seq<u8>, c: Seq<u8>| #[trigger] key_lt(a, b) && #[trigger] key_lt(b, c) ==> key_lt(a, c),
-        forall|a: Seq<u8>, b: Seq<u8>| #[trigger] key_lt(a, b) || a == b || key_lt(b, a),
+        forall|a: Seq<u8>| !#[trigger] slice_lt::<u8>(a, a),
+        forall|a: Seq<u8>, b: Seq<u8>, c: Seq<u8>| #[trigger] slice_lt::<u8>(a, b) && #[trigger] slice_lt::<u8>(b, c) ==> slice_lt::<u8>(a, c),
+        forall|a: Seq<u8>, b: Seq<u8>| #[trigger] slice_lt::<u8>(a, b) || a == b || slice_lt::<u8>(b, a),
 {
 }
 pub open spec fn keys_ascending(e: Seq<Seq<u8>>) -> bool {
-    forall|i: int, j: int| 0 <= i < j < e.len() ==> key_lt(#[trigger] e[i], #[trigger] e[j])
+    forall|i: int, j: int| 0 <= i < j < e.len() ==> slice_lt::<u8>(#[trigger] e[i], #[trigger] e[j])
 }
 
 #[verifier::external_body]
@@ -54,8 +53,8 @@ impl<'b, 'tx> Cursor<'b, 'tx> {
             r ==> final(self).entries()[final(self).pos()] == key@,
             !r && final(self).entries().len() > 0 ==> {
                 let e = final(self).entries(); let p = final(self).pos();
-                &&& forall|j: int| p < j < e.len() ==> key_lt(key@, #[trigger] e[j])
-                &&& (p > 0 ==> key_lt(e[p], key@))
+                &&& forall|j: int| p < j < e.len() ==> slice_lt::<u8>(key@, #[trigger] e[j])
+                &&& (p > 0 ==> slice_lt::<u8>(e[p], key@))
             },
     { unimplemented!() }
     #[verifier::external_body]
@@ -63,7 +62,7 @@ impl<'b, 'tx> Cursor<'b, 'tx> {
         requires self.wf(),
         ensures
             self.entries().len() == 0 ==> r is None,
-            self.entries().len() > 0 ==> r matches Some(d) && d.key_spec() == self.entries()[self.pos()],
+            self.entries().len() > 0 ==> (r matches Some(d) && d.key_spec() == self.entries()[self.pos()]),
     { unimplemented!() }
     // next: the first call after creation or after a seek yields the current slot; later calls advance;
     // calling again after the end is harmless
@@ -74,7 +73,7 @@ impl<'b, 'tx> Cursor<'b, 'tx> {
             final(self).wf(), final(self).entries() == old(self).entries(), final(self).next_called,
             !old(self).next_called ==> final(self).pos() == old(self).pos()
                 && (old(self).entries().len() == 0 ==> r is None)
-                && (old(self).entries().len() > 0 ==> r matches Some(d) && d.key_spec() == old(self).entries()[old(self).pos()]),
+                && (old(self).entries().len() > 0 ==> (r matches Some(d) && d.key_spec() == old(self).entries()[old(self).pos()])),
             old(self).next_called && old(self).pos() + 1 < old(self).entries().len() ==> final(self).pos() == old(self).pos() + 1
                 && (r matches Some(d) && d.key_spec() == old(self).entries()[old(self).pos() + 1]),
             old(self).next_called && old(self).pos() + 1 >= old(self).entries().len() ==> final(self).pos() == old(self).pos() && r is None,
@@ -87,8 +86,8 @@ spec fn bounds_obey<'r, R: RangeBounds<&'r [u8]>>(b: &R) -> bool {
     &&& forall|r: Bound<&&'r [u8]>| call_ensures(<R as RangeBounds<&'r [u8]>>::end_bound, (b,), r) ==> r == b.spec_end_bound()
 }
 spec fn lower_ok<'r>(b: Bound<&&'r [u8]>, k: Seq<u8>) -> bool {
-    match b { Bound::Included(s) => !key_lt(k, (**s)@), Bound::Excluded(s) => key_lt((**s)@, k), Bound::Unbounded => true }
+    match b { Bound::Included(s) => !slice_lt::<u8>(k, (**s)@), Bound::Excluded(s) => slice_lt::<u8>((**s)@, k), Bound::Unbounded => true }
 }
 spec fn upper_ok<'r>(b: Bound<&&'r [u8]>, k: Seq<u8>) -> bool {
-    match b { Bound::Included(e) => !key_lt((**e)@, k), Bound::Excluded(e) => key_lt(k, (**e)@), Bound::Unbounded => true }
+    match b { Bound::Included(e) => !slice_lt::<u8>((**e)@, k), Bound::Excluded(e) => slice_lt::<u8>(k, (**e)@), Bound::Unbounded => true }
 }
